@@ -187,25 +187,39 @@ def timeouts(fk, tier):
     heavy = fk in ("RESERVE_COMMIT", "RESERVE_COMMIT2", "PULLUP", "ADD_IOVEC", "REMOVE", "PREPEND")
     return dict(timeout=900 if tier == "quick" else 1500, mem_gb=4 if heavy else 3)
 
+QUICK_FINALS_1 = ["ADD", "PREPEND", "DRAIN", "REMOVE", "COPYOUT_FROM", "PULLUP", "EXPAND", "RESERVE_COMMIT", "RESERVE_COMMIT2", "REF"]
+QUICK_MULTI = [(A, "ADD", 16), (A, "ADD", 3)]          # the one two-chain state of the quick tier (read-only operations + takers)
+QPA = [[], [(A, "ADD", 3)], [(A, "EXPAND", 8)]]
+QPB = [[(B, "ADD", 3)], [(B, "ADD", 17)], [(B, "ADD", 16), (B, "ADD", 3)]]
+
 def gen(mode, tier, cb=0, finals1=FINALS_1, finals2=FINALS_2, name_prefix="", **kw):
+    """quick: budget <= 5 min wall on 16 idle cores (measured 21-27 s per obligation); thorough: superset"""
     obs = []
-    p_single = PREFIX_1 + (PREFIX_2 + PREFIX_3 if tier == "thorough" else [])
-    for pre in p_single:
+    def one(pre, fin):
+        obs.append(evb_split(mode, pre, fin, cb=cb, name_prefix=name_prefix, **dict(timeouts(fin[1], tier), **kw)))
+    if tier == "quick":
+        for pre in PREFIX_1:
+            for fk in QUICK_FINALS_1: one(pre, (A, fk))
+        for fk in ["DRAIN", "REMOVE", "COPYOUT", "COPYOUT_FROM", "PULLUP", "PTR_SET", "PEEK"]: one(QUICK_MULTI, (A, fk))
+        one([], (A, "ADD_IOVEC"))
+        for x in QPA:
+            for y in QPB:
+                for fk in finals2: one(x + y, (A, fk))
+        return obs
+    for pre in PREFIX_1 + PREFIX_2 + PREFIX_3:
         for fk in finals1:
-            if tier == "quick" and fk == "ADD_IOVEC" and pre not in ([], [(A, "ADD", 15)], [(A, "REF", 3)]): continue
-            if pre not in PREFIX_1 and fk in ("ADD_IOVEC", "PEEK", "PTR_SET", "COPYOUT"): continue
-            obs.append(evb_split(mode, pre, (A, fk), cb=cb, name_prefix=name_prefix, **dict(timeouts(fk, tier), **kw)))
-    pa, pb = (PA_T, PB_T) if tier == "thorough" else (PA_Q, PB_Q)
-    for x in pa:
-        for y in pb:
-            for fk in finals2:
-                obs.append(evb_split(mode, x + y, (A, fk), cb=cb, name_prefix=name_prefix, **dict(timeouts(fk, tier), **kw)))
+            if pre not in PREFIX_1 and fk in ("ADD_IOVEC", "PEEK", "PTR_SET", "COPYOUT") and pre != QUICK_MULTI: continue
+            if fk == "ADD_IOVEC" and pre not in ([], [(A, "ADD", 15)], [(A, "REF", 3)]): continue
+            one(pre, (A, fk))
+    for x in PA_T:
+        for y in PB_T:
+            for fk in finals2: one(x + y, (A, fk))
     return obs
 
 def obligations(tier):
     obs = gen(12, tier)
     # the fully symbolic form of the recipe (size <= 8, no case split) on the core operations
-    sym_prefixes = [[(A, "ADD", 15), (A, "DRAIN", 4)], [(A, "ADD", 16), (A, "ADD", 3)]] + ([[(A, "ADD", 3), (A, "REF", 2)]] if tier == "thorough" else [])
+    sym_prefixes = [[(A, "ADD", 16), (A, "ADD", 3)]] + ([[(A, "ADD", 15), (A, "DRAIN", 4)], [(A, "ADD", 3), (A, "REF", 2)]] if tier == "thorough" else [])
     for pre in sym_prefixes:
         for fk in ["ADD", "PREPEND", "DRAIN", "REMOVE", "PULLUP", "COPYOUT_FROM"]:
             obs.append(evb_obligation(12, pre, (A, fk), name_prefix="sym_", timeout=900, mem_gb=6, desc_extra="; fully symbolic step, size <= 8"))
@@ -213,7 +227,7 @@ def obligations(tier):
     for fk in ["PULLUP", "ADD", "DRAIN", "PREPEND"]:
         obs.append(evb_split(12, SHARED, (B, fk), name_prefix="shared_", solver="kissat", timeout=900, mem_gb=6))
     # releasing everything after a concrete prefix: allocator balanced, references cleaned once
-    for pre in PREFIX_1 + PREFIX_2[:8] + [SHARED]:
+    for pre in (PREFIX_1[1:] if tier == "quick" else PREFIX_1 + PREFIX_2[:8]) + [SHARED]:
         obs.append(evb_obligation(12, pre, (A, "NONE"), name_prefix="free_", extra_defs=["VP_LEAK=2"], timeout=600, mem_gb=4,
                                   desc_extra="; no final step: evbuffer_free of every buffer, allocator balance"))
     if tier == "thorough":
